@@ -477,6 +477,17 @@ func (c09) Check(ctx *core.Ctx, c *core.Case) {
 	if !ok {
 		return
 	}
+	// the marker's optional space left out
+	ok = compare("quote(no space)", gen.QuoteDocNoSpace(D), func(tb []*cm.RootBlock) (cm.Node, int, string) {
+		if len(tb) != 1 || tb[0].Kind() != cm.BlockQuoteKind {
+			return cm.Node{}, 0, fmt.Sprintf("quote(D) parses to %d root blocks %s, want one BlockQuote", len(tb), rootKinds(tb))
+		}
+		return tb[0].AsNode(), 0, ""
+	})
+	ctx.Inc("quote_nospace_checked")
+	if !ok {
+		return
+	}
 
 	// list item
 	if D[0] == ' ' || D[0] == '\n' || D[0] == '\r' {
